@@ -722,6 +722,12 @@ def final_oracles(sc, res):
                 mon.tag('C03/predecessor-never-ran')
             elif t.ast < byid[p].aft:
                 mon.tag('C03/started-before-predecessor-finished')
+    # C06: an ingest task runs for exactly its observation's duration, also when the observation began late
+    for t in byid.values():
+        if '_ingest_t' in t.id and t.aft >= 0:
+            for o in sim.instrument.observations:
+                if t.id.startswith(o.name + '_ingest_t') and o.duration == int(o.duration) and t.aft - t.ast != max(1, o.duration):
+                    mon.tag('C06/ingest-task-runtime-differs-from-observation-duration')
     for a in mon.alloc:
         t = a['task']
         if a['ingest'] or t.aft < 0:
